@@ -86,14 +86,15 @@ let () =
   let lines = ref (read_lines stdin) in
   let next () = match !lines with [] -> None | l :: t -> lines := t; Some (tokens l) in
   let lives : (int, life) Hashtbl.t = Hashtbl.create 16 in
-  let sc = ref { sc_appfixed = true } in
+  let sc = ref { sc_appfixed = true; sc_newtx = false } in
   let rec loop () =
     match next () with
     | None -> ()
     | Some [] -> loop ()
-    | Some ("CASE" :: id :: _arch :: _snap :: _heights :: appfixed :: _) ->
+    | Some ("CASE" :: id :: _arch :: _snap :: _heights :: appfixed :: rest) ->
       Hashtbl.reset lives;
-      sc := { sc_appfixed = (appfixed = "1") };
+      let newtx = match rest with _rot :: "1" :: _ -> true | _ -> false in
+      sc := { sc_appfixed = (appfixed = "1"); sc_newtx = newtx };
       Printf.printf "CASE %s\n" id; loop ()
     | Some ["LIFE"; id; parent; nw; _nr] ->
       let id = int_of_string id and nw = int_of_string nw in
@@ -108,7 +109,8 @@ let () =
           | _ -> failwith "expected W") in
       Hashtbl.replace lives id { parent; writes; recs };
       loop ()
-    | Some ["K"; k; tl; nrecs; cuts] ->
+    | Some ("K" :: k :: tl :: nrecs :: cuts :: np) ->
+      let sc = if np = ["np"] then ref { !sc with sc_newtx = false } else sc in
       let l0 = Hashtbl.find lives 0 in
       let im = mk_image (db_prefix l0 (int_of_string k))
           (with_cuts (cuts_of cuts) (take (int_of_string nrecs) (Array.to_list l0.recs))) in
